@@ -94,25 +94,43 @@ Theorem C02_valid_addenda_typecode : forall L code r, In (l_name L, code) typeco
 Proof. exact C02_valid_typecode. Qed.
 Print Assumptions C02_valid_addenda_typecode.
 
-(* batch level (Batch.isAddendaSequence / IATBatch.isAddendaSequence, regenerated as
-   batch_entry_rules): an entry that carries any optional sub-record has indicator 1, every
-   IAT entry has indicator 1; with the record rules only the one-character CheckDigit is left *)
-Theorem C02_indicator_with_addenda_batch : forall r g, In g (subrecords_of "EntryDetail") ->
-  rec_validb (batch_rules_of "EntryDetail") r = true -> (0 < geti r g)%Z ->
+(* batch level (Batch.isAddendaSequence / IATBatch.isAddendaSequence, regenerated as batch_entry_rules and
+   batch_loop_exits; batch_entries_valid name es = the rules hold of every entry the loop inspects):
+   a standard entry that carries any optional sub-record has indicator 1; an IAT entry the loop inspects has
+   indicator 1, and the loop stops inspecting at the first correction entry (`return nil` inside the loop);
+   with the record rules only the one-character CheckDigit is left as a hypothesis *)
+Theorem C02_indicator_with_addenda_batch : forall es r g, In g (subrecords_of "EntryDetail") ->
+  batch_entries_valid "EntryDetail" es = true -> In r es -> (0 < geti r g)%Z ->
   geti r "AddendaRecordIndicator" = 1%Z.
 Proof. exact C02_indicator_with_addenda. Qed.
 Print Assumptions C02_indicator_with_addenda_batch.
 
-Theorem C02_entry_with_addenda_line_width : forall r g, In g (subrecords_of "EntryDetail") ->
-  rec_validb (rules_of L_EntryDetail) r = true -> rec_validb (batch_rules_of "EntryDetail") r = true ->
-  (0 < geti r g)%Z -> utf8b L_EntryDetail r = true -> rune_count (gets r "CheckDigit") = 1%nat ->
+Theorem C02_entry_with_addenda_line_width : forall es r g, In g (subrecords_of "EntryDetail") ->
+  batch_entries_valid "EntryDetail" es = true -> In r es -> (0 < geti r g)%Z ->
+  rec_validb (rules_of L_EntryDetail) r = true ->
+  utf8b L_EntryDetail r = true -> rune_count (gets r "CheckDigit") = 1%nat ->
   rune_count (render L_EntryDetail r) = 94%nat.
 Proof. exact C02_entry_with_addenda_width. Qed.
 Print Assumptions C02_entry_with_addenda_line_width.
 
-Theorem C02_iat_entry_line_width : forall r,
-  rec_validb (rules_of L_IATEntryDetail) r = true -> rec_validb (batch_rules_of "IATEntryDetail") r = true ->
+Theorem C02_iat_entry_line_width : forall es r,
+  batch_entries_valid "IATEntryDetail" es = true -> In r (batch_inspected "IATEntryDetail" es) ->
+  rec_validb (rules_of L_IATEntryDetail) r = true ->
   utf8b L_IATEntryDetail r = true -> rune_count (gets r "CheckDigit") = 1%nat ->
   rune_count (render L_IATEntryDetail r) = 94%nat.
 Proof. exact C02_iat_entry_width. Qed.
 Print Assumptions C02_iat_entry_line_width.
+
+Theorem C02_iat_inspected_all : forall es, (forall e, In e es -> geti e "#Addenda98" = 0%Z) ->
+  batch_inspected "IATEntryDetail" es = es.
+Proof. exact iat_inspected_all. Qed.
+
+(* the entries after the first correction entry of an IAT batch are not inspected by isAddendaSequence *)
+Theorem C02_iat_later_correction_refuted :
+  let c1 := [("AddendaRecordIndicator", VI 1); ("#Addenda98", VI 1)] in
+  let c2 := [("AddendaRecordIndicator", VI 10); ("#Addenda98", VI 1)] in
+  batch_entries_valid "IATEntryDetail" [c1; c2] = true /\
+  batch_inspected "IATEntryDetail" [c1; c2] = [c1] /\
+  length (itoa (geti c2 "AddendaRecordIndicator")) = 2%nat /\
+  batch_entries_valid "IATEntryDetail" [c2; c1] = false.
+Proof. exact iat_later_correction_refuted. Qed.
